@@ -31,9 +31,10 @@ VARIABLES act,      \* the step just taken, as a JSON string (one line per state
           last,     \* ... and as a record (for the scenario goals below)
           selfend,  \* search id -> the search work ends by itself (depth limit)
           waits,    \* search id -> iterations of the wait loop seen
-          tpolls    \* timer id -> iterations of the timer loop seen
+          tpolls,   \* timer id -> iterations of the timer loop seen
+          armed     \* the start request under way began while a timer's stop was pending (scenario goal 12)
 
-gvars == <<vars, act, last, selfend, waits, tpolls>>
+gvars == <<vars, act, last, selfend, waits, tpolls, armed>>
 
 MaxLoop == 2
 
@@ -43,6 +44,7 @@ GInit == /\ Init
          /\ selfend = [g \in SIds |-> FALSE]
          /\ waits = [g \in SIds |-> 0]
          /\ tpolls = [t \in TIds |-> 0]
+         /\ armed = FALSE
 
 \* the timer a step spawned (0 = none)
 Spawned == IF \E t \in TIds : tpc[t] = "unborn" /\ tpc'[t] # "unborn"
@@ -52,19 +54,20 @@ Rec(l, k, i, x) == [l |-> l, k |-> k, i |-> i, x |-> x, srch |-> Searching', nre
                     alive |-> Cardinality({t \in TIds : tpc'[t] \notin {"unborn", "dead"}})]   \* timer goroutines alive after the step
 Log(l, k, i, x) == /\ last' = Rec(l, k, i, x)
                    /\ act' = ToJson(Rec(l, k, i, x))
-Keep == UNCHANGED <<selfend, waits, tpolls>>
+Keep == UNCHANGED <<selfend, waits, tpolls, armed>>
 
 \* ---------------------------------------------------------------- controller
 GCallStart == \E m \in Modes, se \in BOOLEAN :
     /\ (m = "depth" => se)
     /\ CallStart(m)
     /\ selfend' = [selfend EXCEPT ![nstarts + 1] = se]
-    /\ UNCHANGED <<waits, tpolls>>
+    /\ UNCHANGED <<waits, tpolls, armed>>
     /\ Log("call.start", "c", nstarts + 1, <<m, se>>)
 
 GCtrl ==
     \/ GCallStart
-    \/ StartAcq1 /\ Keep /\ Log("c.start.acq1", "c", 0, "")
+    \/ /\ StartAcq1 /\ UNCHANGED <<selfend, waits, tpolls>> /\ Log("c.start.acq1", "c", 0, "")
+       /\ armed' = (stopFlag /\ lastSetter[1] = "timer")
     \/ StartStore /\ Keep /\ Log("c.start.store", "c", 0, "")
     \/ StartSpawn /\ Keep /\ Log("c.start.spawn", "c", nstarts + 1, "")
     \/ StartAcq2 /\ Keep /\ Log("c.start.acq2", "c", 0, "")
@@ -88,7 +91,7 @@ GRunWork(g) ==
 GRunWaitLoop(g) ==    \* one more iteration of the wait loop of an unlimited search that finished early
     /\ spc[g] = "done" /\ Unlimited(smode[g]) /\ ~stopFlag /\ waits[g] < MaxLoop
     /\ waits' = [waits EXCEPT ![g] = @ + 1]
-    /\ UNCHANGED <<vars, selfend, tpolls>>
+    /\ UNCHANGED <<vars, selfend, tpolls, armed>>
     /\ Log("r.wait", "r", g, "")
 
 GRunFinish(g) ==      \* RunWait (leaving) and RunEndSet: no hook in between
@@ -121,7 +124,7 @@ LoopOn(t) == clock - tstart[t] < timeLimit /\ ~stopFlag /\ gen = towner[t][2]
 GTimerLoop(t) ==      \* the loop test holds: one more 5 ms sleep
     /\ tpc[t] = "tpoll" /\ LoopOn(t) /\ tpolls[t] < MaxLoop
     /\ tpolls' = [tpolls EXCEPT ![t] = @ + 1]
-    /\ UNCHANGED <<vars, selfend, waits>>
+    /\ UNCHANGED <<vars, selfend, waits, armed>>
     /\ Log("t.poll", "t", t, "")
 
 GTimerLeave(t) ==     \* TimerPoll (leaving) and TimerCheck: no hook in between
@@ -162,7 +165,10 @@ Goal(n) ==
       [] n = 9 -> last.l = "call.ponderhit" /\ last.spawn # 0 /\ \E g \in SIds : smode[g] = "ponder" /\ spc[g] \in {"send", "rel"}   \* ponderhit meets a ponder search that is just answering: its timer is stale from birth
       [] n = 10 -> last.l = "r.try.ok" /\ last.x = "granted" /\ last.alive >= 1      \* a queued start is let in while an old timer is alive
       [] n = 11 -> last.l = "call.query" /\ last.x \in {"clearhash", "resize"} /\ \E g \in SIds : spc[g] \in {"send", "rel"}   \* hash cleared / resized while a result is being sent
-      [] n = 12 -> last.l = "r.sent" /\ Len(results) = 2 /\ results[1] > results[2]  \* (never: results come in start order - a goal TLC must NOT reach)
+      [] n = 12 -> last.l = "r.try.fail" /\ armed /\ stopFlag /\ \E g \in SIds : spc[g] = "work" /\ ~selfend[g]
+                                                                                     \* a start request is issued and rejected while the running search has not yet seen the stop of its own timer
+      [] n = 13 -> last.l = "c.start.rel" /\ \E g \in SIds : spc[g] = "rejected" /\ \E h \in SIds : spc[h] = "done" /\ stopFlag /\ lastSetter[1] = "ctrl"
+                                                                                     \* (never: the controller cannot start while its own stop is pending - a goal TLC must NOT reach)
       [] OTHER -> FALSE
 NoGoal1 == ~Goal(1)
 NoGoal2 == ~Goal(2)
@@ -176,6 +182,7 @@ NoGoal9 == ~Goal(9)
 NoGoal10 == ~Goal(10)
 NoGoal11 == ~Goal(11)
 NoGoal12 == ~Goal(12)
+NoGoal13 == ~Goal(13)
 
 \* the lifecycle properties hold on everything generated (they are checked again on the real run)
 GProps == TypeOK /\ NoCtrlStuck /\ OneResultEach /\ OwnStopOnly /\ NoResultBeforeStop
